@@ -162,19 +162,28 @@ def nav_order(project_tree):
     return out
 
 
-def run_case(st: Stats, tree, ordered, copy_mode):
+BASE_URL = "https://example.org/docs"
+
+
+def run_case(st: Stats, tree, ordered, copy_mode, url_mode=False):
     files, exp = materialise(tree, ordered, copy_mode)
     opts = dict(page_dir="pages", media_dir="media")
+    if url_mode:
+        # the documentation will be served from a known address: links into it are absolute URLs below that address
+        opts["project_url"] = BASE_URL
+        opts["search"] = True  # FORD's default
+        opts["extra_filetypes"] = [dict(extension="sh", comment="#")]
+        files = dict(files, **{"src/tool.sh": "#! a script\necho x\n"})
     if copy_mode in ("project", "project+rootpage"):
         opts["copy_subdir"] = ["a_n"]
     r = fordrun.build(files, opts, stage="write", proj_body="front\n")
     st.evaluations += 1
     st.transitions += 1
-    stratum = f"ordered:{ordered}/copy:{copy_mode}"
-    inp = dict(tree=repr(tree), ordered=ordered, copy_mode=copy_mode, page_files=sorted(f for f in files if f.startswith("pages/")))
+    stratum = f"ordered:{ordered}/copy:{copy_mode}" + ("/project_url" if url_mode else "")
+    inp = dict(tree=repr(tree), ordered=ordered, copy_mode=copy_mode, url_mode=url_mode, page_files=sorted(f for f in files if f.startswith("pages/")))
     kinds = sorted({(e if isinstance(e, str) else e[0]) for e in flatten(tree)})
-    feats = dict(ordered=ordered, copy_mode=copy_mode, kinds="".join(kinds), depth=depth_of(tree))
-    st.nontrivial.add(core.digest([repr(tree), ordered, copy_mode]))
+    feats = dict(ordered=ordered, copy_mode=copy_mode, kinds="".join(kinds), depth=depth_of(tree), url_mode=url_mode)
+    st.nontrivial.add(core.digest([repr(tree), ordered, copy_mode, url_mode]))
     try:
         if exp["missing"]:
             ok = r.error is not None and exp["missing"] in (str(r.error) + r.log)
@@ -243,6 +252,33 @@ def run_case(st: Stats, tree, ordered, copy_mode):
             seen.add(cls)
             bad += 1
             st.violation("broken-link-on-static-page", stratum, dict(feats, link_class=cls), inp, dict(page=page, url=url, problem=prob), "resolves")
+        if url_mode:
+            import urllib.parse as _up
+
+            seen_u = set()
+            for rel, pg in site.pages.items():
+                for (_, a, u) in pg.links:
+                    if a not in ("href", "src") or not u.startswith("http"):
+                        continue
+                    if u.startswith(BASE_URL + "/") or u == BASE_URL:
+                        target = _up.unquote(u[len(BASE_URL) + 1:].split("#")[0]) or "index.html"
+                        ok = target in site.files
+                        prob = f"no such file in the output: {target}"
+                    elif "example.org" in u or _up.urlsplit(u).netloc == "":
+                        ok, prob = False, "malformed URL into the documentation"
+                    else:
+                        continue
+                    cls = (rel.split("/")[0], prob.split(":")[0])
+                    if not ok and cls not in seen_u:
+                        seen_u.add(cls)
+                        bad += 1
+                        st.violation("broken-link-on-static-page", stratum, dict(feats, link_class="url-mode:" + cls[1]), inp, dict(page=rel, url=u, problem=prob), "an address below project_url that exists")
+            for e in site.search:
+                u = str(e.get("url", "")) if isinstance(e, dict) else ""
+                if not (u.startswith(BASE_URL + "/") and u[len(BASE_URL) + 1:].split("#")[0] in site.files):
+                    bad += 1
+                    st.violation("broken-link-on-static-page", stratum, dict(feats, link_class="url-mode:search-index"), inp, dict(page="search index", url=u), "an address below project_url that exists")
+                    break
         # fragments of alias links and relative links survive
         for rel, pg in site.pages.items():
             if rel.startswith("page/") and not any(rel.startswith(f"page/{d}/") for d in exp["copied_dirs"]):
@@ -300,6 +336,10 @@ def gen_cases(tier):
     for n in (0, 1, 2):
         for t in trees(n, 2):
             yield (t, "missing", "absent")
+    # project_url given as a real URL
+    for n in (0, 1, 2) if tier == "quick" else (0, 1, 2, 3):
+        for t in trees(n, 3):
+            yield (t, "absent", "absent", True)
     if tier == "thorough":
         # 5 entries: page/dir kinds only (the kinds that shape the mirror)
         global KINDS
@@ -314,8 +354,8 @@ def gen_cases(tier):
 
 def work(chunk):
     st = Stats()
-    for (t, o, c) in chunk:
-        run_case(st, t, o, c)
+    for (t, o, c, *more) in chunk:
+        run_case(st, t, o, c, bool(more and more[0]))
     return st
 
 
@@ -326,7 +366,7 @@ def replay(path):
     rec = json.loads(open(path).read())
     i = rec["input"]
     st = Stats()
-    run_case(st, eval(i["tree"]), i["ordered"], i["copy_mode"])  # noqa: S307 - our own repr of a tuple tree
+    run_case(st, eval(i["tree"]), i["ordered"], i["copy_mode"], i.get("url_mode", False))  # noqa: S307 - our own repr of a tuple tree
     print(i["page_files"])
     for v in st.violations:
         print("REPRODUCED", v["clause"], v["observed"], "want", v["expected"])
